@@ -79,6 +79,18 @@ Theorem Pem_prune_transparent : forall g, hints_sound_b g = true ->
 Proof. exact prune_transparent. Qed.
 Print Assumptions Pem_prune_transparent.
 
+(** The full statement one would like,
+      [hints_sound_b g = true -> toks_ok g toks -> parse_root g toks rx fuel s e = parse_root_np g toks rx fuel s e],
+    is false for outcomes other than a match result of the reference run: the unpruned run can end in [RErr]
+    ([Pem_error_outcomes_differ_refuted] below), in a panic or out of fuel inside an alternative that pruning
+    never evaluates, and [Ref.exclude] turns such an [RErr] into "not excluded".  What is proved is the largest
+    fragment that is true: every [ROk] outcome of the reference run, at that fuel and every larger one. *)
+Theorem Pem_prune_transparent_fuel : forall g, hints_sound_b g = true ->
+  forall toks rx fuel fuel' s e m, toks_ok g toks -> (fuel <= fuel')%nat ->
+    parse_root_ref g toks rx fuel s e = ROk m -> parse_root g toks rx fuel' s e = ROk m.
+Proof. exact prune_transparent_fuel. Qed.
+Print Assumptions Pem_prune_transparent_fuel.
+
 (** ... and so does the interpreter with pruning merely switched off (errors swallowed as the code does) *)
 Theorem Pem_ref_refines_np : forall g toks rx fuel s e m,
   parse_root_ref g toks rx fuel s e = ROk m -> parse_root_np g toks rx fuel s e = ROk m.
